@@ -19,6 +19,23 @@ returns is accepted only if the verified checker accepts it.  Exits of BLOCK3:
   exhibits a capped run that is not a KKT point);
 * `B3Exit.innerFuel`  — model-only bound on the `while (!feasible)` loop.
 All three return a component-wise non-negative vector (`block3_nonneg_invariant`), which is what C10 needs.
+
+Proved for all sizes and all rational data about the executable definitions (second half of the file):
+* the exact solve `solveOn` (Gauss–Jordan without row exchanges) is correct (`solveOn_solves`) and, on a certified
+  matrix, total (`solveOn_returns`);
+* the certificate `spdCert` (symmetric, all pivots `> 0`) is equivalent to positive definiteness (`spdCert_sound`,
+  `spdCert_iff`) — through the `LDLᵀ` steps of the elimination, not through determinants;
+* hence `ExactEnv` holds for the executable `exactEnv` (`exactEnv_ExactEnv`), and the convergence exit of the
+  executable state machine certifies KKT with no hypothesis left (`block3_exit_kkt_exact`, `block3_exit_optimal`,
+  `block3_exit_near_minimiser`);
+* the constrained minimiser exists and is unique (`nnls_minimiser_exists_unique`), `refNnls` finds it
+  (`refNnls_returns`), acceptance by `kktCheck` bounds the distance to it (`kktCheck_zero_optimal`,
+  `kktCheck_tol_optimal`, `C11_certificate_full`);
+* the `while (!feasible)` loop terminates within `n + 1` passes (`block3_inner_terminates`, `block3_exits`); an accepted
+  projected step strictly decreases the objective (`walk_accepted_step_decreases`).
+Still **not** proved: a decreasing measure for the outer `for` loop of BLOCK3 (the C code stores an unaccepted last
+trial of `walk_descents` and binds coefficients below `kkt_tolerance`, both of which can raise the objective; the cap
+`max_iter` is a real exit), and anything about the floating-point solves of the C code (covered by certificate checking).
 -/
 namespace PsV
 open Matrix Nnls
